@@ -831,7 +831,7 @@ Qed.
 Lemma index_of_last k : forall ks s, ~ In k ks -> index_of k (ks ++ [k]) s = Ok (s + zlen ks).
 Proof.
   induction ks as [|k' r IH]; intros s Hnin.
-  - cbn. rewrite (proj2 (name_eqb_eq k k) eq_refl). f_equal. rewrite zlen_nil. lia.
+  - cbn. rewrite (proj2 (name_eqb_eq k k) eq_refl). f_equal. lia.
   - cbn [app index_of]. replace (name_eqb k k') with false
       by (symmetry; apply name_eqb_neq; intros ->; apply Hnin; left; reflexivity).
     rewrite IH by (intros Hin; apply Hnin; right; exact Hin). f_equal. rewrite zlen_cons. lia.
@@ -863,7 +863,9 @@ Proof.
   rewrite get_app2 by lia. rewrite Z.sub_diag, get_cons_0. cbn [bind].
   rewrite mapM_map.
   rewrite (mapM_Ok_map _ (fun p : list (name * value) * value => snd p)).
-  - cbn [rmap]. f_equal. f_equal. destruct (zip_fst_snd rows ws Hlen) as [_ E]. exact E.
+  - cbn [rmap bind]. destruct (zip_fst_snd rows ws Hlen) as [_ E].
+    change (map (fun p : list (name * value) * value => snd p) (zip rows ws)) with (map snd (zip rows ws)).
+    rewrite E. reflexivity.
   - intros [fs w] Hin. cbn [fst snd].
     assert (Hfs : map fst fs = ks).
     { unfold records_of in Hrec. rewrite Forall_forall in Hrec. apply Hrec.
